@@ -425,6 +425,7 @@ Proof.
   destruct req as [parent tid fams|name|name|parent|name mods|name all prefix|tbl key muts|tbl entries
                   |tbl key pred tm fm|tbl key rules|tbl keys ranges f limit|tbl|tbl].
   - (* CreateTable *)
+    destruct (negb (valid_tid tid) || negb (valid_parent parent)); cbn [fst]; auto.
     destruct (alookup _ s); cbn [fst]; auto. apply set_table_ok; auto.
     split; cbn; constructor.
   - (* DeleteTable *)
@@ -571,9 +572,9 @@ Example C01_example :
 Proof. split; [apply fams_okb_sound; reflexivity|]. vm_compute. auto. Qed.
 
 (* a concrete client history, used by the non-vacuity examples of Props/C01.v *)
-Definition ex_tbl : bytes := [112; 47; 116; 97; 98; 108; 101; 115; 47; 116]%N.   (* "p/tables/t" *)
+Definition ex_tbl : bytes := [112; 114; 111; 106; 101; 99; 116; 115; 47; 112; 47; 105; 110; 115; 116; 97; 110; 99; 101; 115; 47; 105; 47; 116; 97; 98; 108; 101; 115; 47; 116]%N.   (* "projects/p/instances/i/tables/t" *)
 Definition ex_history : list call :=
-  [ mkCall (BCreateTable [112%N] [116%N] [([102%N], Some (GMaxVersions 1))]) 0 [];
+  [ mkCall (BCreateTable [112; 114; 111; 106; 101; 99; 116; 115; 47; 112; 47; 105; 110; 115; 116; 97; 110; 99; 101; 115; 47; 105]%N [116%N] [([102%N], Some (GMaxVersions 1))]) 0 [];
     mkCall (BMutateRow ex_tbl [114%N] [SetCell [102%N] [113%N] (-1) [1%N]; SetCell [102%N] [97%N] 2000 [2%N]]) 5500 [];
     mkCall (BReadModifyWrite ex_tbl [114%N] [RAppend [102%N] [113%N] [7%N]]) 9999 [];
     mkCall (BMutateRow ex_tbl [115%N] [SetCell [103%N] [113%N] 1000 [1%N]]) 9999 [];
